@@ -35,7 +35,8 @@ def merge_cases(behs):
         c["steps"] = [c["steps"][0]] + sorted(c["steps"][1:], key=lambda s: order.get(s.get("key"), 9))
     hs = sorted({json.dumps(s, sort_keys=True) for s in helper})
     hsteps = sorted((json.loads(s) for s in hs), key=lambda s: (s["a"], s.get("kl", 0), s["tl"]))
-    return [cases[k] for k in sorted(cases)], hsteps
+    # small messages first (the trace validator keeps a bounded sample of failures per predicate, in trace order)
+    return sorted(cases.values(), key=lambda c: (len(c["sub"]), c["case"])), hsteps
 
 
 def annotate(trace_in, trace_out):
@@ -175,23 +176,28 @@ def _pipeline(chk, replay, quick):
         "damaged byte strings under ASan/UBSan (sanitizer = oracle for memory safety). Reference values by python hmac/hashlib/zlib. "
         "distinct_nontrivial = distinct encoded byte strings longer than the bare header. evaluations = encode + decode + helper "
         "calls + flipped decodes + fuzz decodes.")
-    for b in (execs[1:3] + execs[-3:-1]):
-        if "m" in b:
-            chk.sample({k: b[k] for k in ("case", "m", "klen", "fp", "steps")})
+    withm = [b for b in execs if "m" in b]
+    for b in withm[:2] + withm[-2:]:
+        chk.sample({k: b[k] for k in ("case", "m", "klen", "fp", "steps")})
+    if not withm:
+        chk.sample({k: v for k, v in execs[0].items() if k != "steps"} | {"steps": execs[0].get("steps", [])[:5]})
     # 5. violations
     cases_seen = vf.split_cases(trace)
     groups = {}
     for v in s["viol"]:
         b = by_id.get(v["case"], {})
         if v["prop"].startswith("Helper"):
-            key = (v["prop"], v["e"], "klen>64" if v["pos"] > 64 else "klen<=64")
+            klen = v["pos"]
             rank = (v["pos"], v["bit"])
         else:
-            key = (v["prop"], v["e"] if v["e"] not in ("Flip", "Fuzz") else v["e"], "klen=%d" % b.get("klen", v["bit"] if v["e"] == "Fuzz" else 0))
+            klen = v["bit"] if v["e"] == "Fuzz" else b.get("klen", 0)
             rank = (len(b.get("sub", [])), v["case"], v["pos"], v["bit"])
+        # one report per predicate and call; the key-dependent ones split at the HMAC block size
+        kclass = ("klen>64" if klen > 64 else "klen<=64") if v["prop"] in ("MI-RFC", "Integrity", "Helper-Hmac") else "any-key"
+        key = (v["prop"], v["e"], kclass)
         if key not in groups or rank < groups[key][0]:
             groups[key] = (rank, v)
-    for key in sorted(groups)[:6]:
+    for key in sorted(groups)[:8]:
         rank, v = groups[key]
         b = by_id.get(v["case"], {})
         where = v["case"]
